@@ -57,12 +57,17 @@ struct Registry
         if (!live.erase(p))
             errors.push_back("element destroyed twice (or destroyed without having been constructed)");
     }
-    void tick()
+    char fault_kind = 0; // kind of the element operation that threw: D default ctor, V value ctor, C copy ctor,
+                         // M move ctor, c copy assignment, m move assignment
+    void tick(char kind)
     {
         if (!armed)
             return;
         if (++ops == fault_at)
+        {
+            fault_kind = kind;
             throw Fault();
+        }
     }
     void arm(long at)
     {
@@ -89,28 +94,28 @@ struct Tracked
 
     Tracked()
     {
-        R().tick();
+        R().tick('D');
         R().reg(this);
     }
     Tracked(int x) : v(x), mark('F')
     {
-        R().tick();
+        R().tick('V');
         R().reg(this);
     }
     Tracked(const Tracked& o) : v(o.v), mark(o.mark)
     {
-        R().tick();
+        R().tick('C');
         R().reg(this);
     }
     Tracked(Tracked&& o) : v(o.v), mark(o.mark)
     {
-        R().tick();
+        R().tick('M');
         R().reg(this);
         o.gut();
     }
     Tracked& operator=(const Tracked& o)
     {
-        R().tick();
+        R().tick('c');
         check_live(&o);
         v = o.v;
         mark = o.mark;
@@ -118,7 +123,7 @@ struct Tracked
     }
     Tracked& operator=(Tracked&& o)
     {
-        R().tick();
+        R().tick('m');
         check_live(&o);
         if (&o != this)
         {
@@ -160,25 +165,25 @@ struct MoveOnly
     char mark = 'U';
     MoveOnly()
     {
-        R().tick();
+        R().tick('D');
         R().reg(this);
     }
     MoveOnly(int x) : v(x), mark('F')
     {
-        R().tick();
+        R().tick('V');
         R().reg(this);
     }
     MoveOnly(const MoveOnly&) = delete;
     MoveOnly& operator=(const MoveOnly&) = delete;
     MoveOnly(MoveOnly&& o) : v(o.v), mark(o.mark)
     {
-        R().tick();
+        R().tick('M');
         R().reg(this);
         o.gut();
     }
     MoveOnly& operator=(MoveOnly&& o)
     {
-        R().tick();
+        R().tick('m');
         if (!R().live.count(this) || !R().live.count(&o))
             R().errors.push_back("assignment involving an element that is not alive");
         if (&o != this)
@@ -232,8 +237,8 @@ struct Op
         std::string s = std::to_string(slot) + ":" + code;
         if (code == "CC" || code == "MC" || code == "CA" || code == "MA")
             return s + std::to_string(other);
-        bool two = code == "EM" || code == "IR" || code == "NEWIT" || code == "WR" || code == "LA" || code == "NEWIL" || code == "PBR";
-        bool one = two || code == "NEW" || code == "EB" || code == "PB" || code == "IC" || code == "IM" || code == "ER" ||
+        bool two = code == "EM" || code == "EMS" || code == "IR" || code == "NEWIT" || code == "WR" || code == "LA" || code == "NEWIL" || code == "PBR";
+        bool one = two || code == "NEW" || code == "EB" || code == "PB" || code == "IC" || code == "IM" || code == "EBS" || code == "PBS" || code == "ICS" || code == "ER" ||
                    code == "AT" || code == "ATC" || code == "GET";
         if (one)
             s += std::to_string(a);
@@ -513,6 +518,28 @@ struct World
         }
     }
 
+    // visible (abstract) contents: size + mark/value of the visible slots
+    std::string visible(int slot) const
+    {
+        auto& v = *fv[slot];
+        std::string s = std::to_string(v.size()) + ":";
+        if (v.data())
+            for (size_t i = 0; i < v.size() && i < v.capacity(); i++)
+                s += std::string(1, v.data()[i].mark) + std::to_string(v.data()[i].v) + ",";
+        return s;
+    }
+    // A single-element operation that failed because the *construction* of the new element threw must leave the
+    // visible contents unchanged (a failing move/copy assignment while shifting is only held to the basic guarantee).
+    void strong_on_construction_fault(const std::string& before_visible, int slot, const std::string& what)
+    {
+        char k = R().fault_kind;
+        if (k != 'V' && k != 'C' && k != 'M' && k != 'D')
+            return;
+        if (visible(slot) != before_visible)
+            fail("C06", "failed-operation-changed-container",
+                 what + ": constructing the new element threw, but the visible contents changed from " + before_visible + " to " + visible(slot));
+    }
+
     // expectation helpers
     void expect_throw_unchanged(bool threw, bool non_std, const std::string& before, int slot, const std::string& what)
     {
@@ -665,6 +692,7 @@ struct World
         }
         auto& v = *fv[s];
         std::string before = key(s);
+        std::string before_visible = visible(s);
         size_t size0 = r.vals.size();
         bool full = size0 >= r.cap;
         if (c == "CA" || c == "MA")
@@ -750,8 +778,13 @@ struct World
             return true;
         }
         // ---------------- single-element operations
-        if (c == "EB" || c == "PB" || c == "IC" || c == "IM")
+        if (c == "EB" || c == "PB" || c == "IC" || c == "IM" || c == "EBS" || c == "PBS" || c == "ICS")
         {
+            // plain value (EB, PB, IC, IM: a = value) or an element of the same container as argument (..S: a = index)
+            bool self = c.size() == 3;
+            if (self && (static_cast<size_t>(op.a) >= size0 || !std::is_copy_constructible<T>::value))
+                return true;
+            int value = self ? r.vals[op.a] : op.a;
             size_t ret = 999;
             if (c == "EB")
                 guarded([&] { ret = v.emplace_back(op.a); });
@@ -767,10 +800,17 @@ struct World
                     T arg(op.a);
                     if (c == "PB")
                         guarded([&] { ret = v.push_back(arg); });
+                    else if (c == "EBS")
+                        guarded([&] { ret = v.emplace_back(v[op.a]); });
+                    else if (c == "PBS")
+                        guarded([&] { ret = v.push_back(v[op.a]); });
                     else
                     {
 #ifndef FV_NO_INSERT_CONST
-                        guarded([&] { ret = v.insert(static_cast<const T&>(arg)); });
+                        if (c == "ICS")
+                            guarded([&] { ret = v.insert(static_cast<const T&>(v[op.a])); });
+                        else
+                            guarded([&] { ret = v.insert(static_cast<const T&>(arg)); });
 #else
                         return true;
 #endif
@@ -782,7 +822,10 @@ struct World
                     return true;
             }
             if (fault)
+            {
+                strong_on_construction_fault(before_visible, s, what);
                 return false;
+            }
             if (full)
                 expect_throw_unchanged(threw, non_std, before, s, what + " on a full container");
             else
@@ -793,20 +836,35 @@ struct World
                     resync(s);
                     return true;
                 }
-                r.vals.push_back(op.a);
+                r.vals.push_back(value);
                 if (ret != size0)
                     fail("C07", "append-returned-wrong-index", what + " returned " + std::to_string(ret) + " expected " + std::to_string(size0));
             }
             return true;
         }
-        if (c == "EM")
+        if (c == "EM" || c == "EMS")
         {
+            // EM: a = position, b = value; EMS: a = position, b = index of an element of the same container
             size_t k = op.a;
             if (k > r.cap)
                 return true;
-            guarded([&] { v.emplace(v.begin() + k, op.b); });
+            bool self = c == "EMS";
+            if (self && (static_cast<size_t>(op.b) >= size0 || !std::is_copy_constructible<T>::value))
+                return true;
+            int value = self ? r.vals[op.b] : op.b;
+            if (self)
+            {
+                if constexpr (std::is_copy_constructible<T>::value)
+                    guarded([&] { v.emplace(v.begin() + k, v[op.b]); });
+            }
+            else
+                guarded([&] { v.emplace(v.begin() + k, op.b); });
             if (fault)
+            {
+                if (k <= size0)
+                    strong_on_construction_fault(before_visible, s, what);
                 return false;
+            }
             if (k > size0)
             {
                 // position beyond the end: the statement is silent, only safety / invariants are judged
@@ -823,7 +881,7 @@ struct World
                     resync(s);
                     return true;
                 }
-                r.vals.insert(r.vals.begin() + k, op.b);
+                r.vals.insert(r.vals.begin() + k, value);
             }
             return true;
         }
@@ -928,7 +986,24 @@ struct World
                     guarded([&] { v.insert(v.begin() + k, std::make_move_iterator(range.begin()), std::make_move_iterator(range.end())); });
             }
             if (fault)
+            {
+                // basic guarantee for a range append: whatever became visible must be what the caller put there -
+                // the old elements, followed by a prefix of the range
+                if (k == size0 && v.data() && v.size() <= v.capacity())
+                {
+                    auto rv = range_vals(len, 1, nvalues);
+                    for (size_t i = size0; i < v.size(); i++)
+                    {
+                        auto& e = v.data()[i];
+                        bool ok = i - size0 < rv.size() && e.mark == 'F' && e.v == rv[i - size0];
+                        if (!ok)
+                            fail("C06", "element-exposed-that-the-caller-did-not-put-there",
+                                 what + ": an element copy threw, afterwards index " + std::to_string(i) + " shows " + std::string(1, e.mark) +
+                                     std::to_string(e.v) + " which is not the corresponding range element; before " + before + " after " + key(s));
+                    }
+                }
                 return false;
+            }
             if (non_std)
                 fail("C06", "wrong-exception-type", what);
             bool fits = k <= size0 && k + len <= r.cap;
